@@ -58,7 +58,7 @@ func C03(e *Env) {
 	r.Rule("R06.4", "emitted reference = recorded reference; dependencies are the union over all tokens (shared with C06)", 6)
 	orderRule(e, "R03.4", tokenRel, "Tokenizer.Tokenize", "Tokens.GoCode")
 	loopExitRule(e, "R03.4", tokenRel, "a later chunk is dropped from the pattern", "Tokenizer.Tokenize", "Tokens.GoCode")
-	c03ParamRules(e)
+	c03ParamRules(e, "R03.4")
 	c15Builtins(e)
 	r.Rule("R15.3", "built-in function table and its helpers (shared with C15)", 4)
 	c02ResolverChain(e, "R02.1")
@@ -811,12 +811,12 @@ func c03GoCode(e *Env) {
 	r.Check(okE, "R03.3", key+"#empty-is-error", "no token is an error")
 }
 
-func c03ParamRules(e *Env) {
+func c03ParamRules(e *Env, rule string) {
 	r := e.R
 	fn := e.P.Func(resolverRel, "ParamResolver.ResolveParam")
 	key := resolverRel + ".ParamResolver.ResolveParam"
 	if fn == nil {
-		r.Undecide("R03.4", key, "anchor not found")
+		r.Undecide(rule, key, "anchor not found")
 		return
 	}
 	got := map[string]bool{}
@@ -833,7 +833,7 @@ func c03ParamRules(e *Env) {
 			}
 		}
 	}
-	r.Check(got["len(DependsOnServices)>0"] && got["len(DependsOnTags)>0"], "R03.4", key+"#no-service-or-tag-in-params", fmt.Sprintf("a parameter that references a service or a tag is rejected (guards %v)", keysOf(got)))
+	r.Check(got["len(DependsOnServices)>0"] && got["len(DependsOnTags)>0"], rule, key+"#no-service-or-tag-in-params", fmt.Sprintf("a parameter that references a service or a tag is rejected (guards %v)", keysOf(got)))
 	// StepCompileParams iterates in key order
 	pf := e.P.Func(compilerRel, "StepCompileParams.Process")
 	okIt := false
@@ -844,14 +844,14 @@ func c03ParamRules(e *Env) {
 			}
 		}
 	}
-	r.Check(okIt, "R03.4", compilerRel+".StepCompileParams.Process#key-order", "parameters are compiled in key order (maps.Iterate)")
+	r.Check(okIt, rule, compilerRel+".StepCompileParams.Process#key-order", "parameters are compiled in key order (maps.Iterate)")
 	// paramResolver wiring
 	gm, _, ok := e.models()
 	if ok {
 		pr := gm.Service("paramResolver")
-		r.Check(ctorIs(e, pr, resolverRel, "NewParamResolver") && len(pr.Args) == 1 && depIs(pr.Args[0], "service", "primitiveArgResolver"), "R03.4", selfRel+"#service:paramResolver", "parameters are resolved by the primitive chain (no @service / !tagged / !value / $gontainer forms)")
+		r.Check(ctorIs(e, pr, resolverRel, "NewParamResolver") && len(pr.Args) == 1 && depIs(pr.Args[0], "service", "primitiveArgResolver"), rule, selfRel+"#service:paramResolver", "parameters are resolved by the primitive chain (no @service / !tagged / !value / $gontainer forms)")
 		sp := gm.Service("stepCompileParams")
-		r.Check(ctorIs(e, sp, compilerRel, "NewStepCompileParams") && len(sp.Args) == 1 && depIs(sp.Args[0], "service", "paramResolver"), "R03.4", selfRel+"#service:stepCompileParams", "the parameter step uses the parameter resolver")
+		r.Check(ctorIs(e, sp, compilerRel, "NewStepCompileParams") && len(sp.Args) == 1 && depIs(sp.Args[0], "service", "paramResolver"), rule, selfRel+"#service:stepCompileParams", "the parameter step uses the parameter resolver")
 	}
 }
 
